@@ -288,8 +288,17 @@ theorem both_add_tail (sr : AddRel now tOK C R) (st : St) (p : AddP)
   · exact both_refl sr.refl _
 
 /-- Every downtime that exists before an operation has an `R`-successor after it. -/
+theorem both_setq (st : St) (b : Bool) (hq : ∀ d, C d → R d (setQuiet b d)) (ha : AllC C st.dts) :
+    Both R st.dts (setPausedOp st b).dts := by
+  unfold setPausedOp
+  exact both_map _ _ (fun d hd => hq d (ha d hd))
+
+/-- What `setPaused` needs of a relation. -/
+def QOK (op : Op) (C : Dt → Prop) (R : Dt → Dt → Prop) : Prop :=
+  ∀ b now, op = .setPaused b now → ∀ d, C d → R d (setQuiet b d)
+
 theorem step_succ (st : St) (op : Op) (sr : StepRel op.now tOK C R) (ha : AllC C st.dts)
-    (hop : OpT st tOK C op) :
+    (hop : OpT st tOK C op) (hq : QOK op C R) :
     ∀ d ∈ st.dts, ∃ d' ∈ (step st op).1.dts, R d d' := by
   cases op with
   | add p now =>
@@ -303,11 +312,12 @@ theorem step_succ (st : St) (op : Op) (sr : StepRel op.now tOK C R) (ha : AllC C
   | result s te now => exact (both_result sr.toAddRel.toTrigRel st s te hop ha).1
   | pump now => exact (both_pump sr st ha).1
   | remove id u now => exact (both_remove sr st id u ha).1
+  | setPaused b now => exact (both_setq st b (hq b now rfl) ha).1
 
 /-- Every downtime that exists after an operation is the `R`-successor of one that existed before, or of
     the freshly created one. -/
 theorem step_pred (st : St) (op : Op) (sr : StepRel op.now tOK C R) (ha : AllC C st.dts)
-    (hop : OpT st tOK C op) :
+    (hop : OpT st tOK C op) (hq : QOK op C R) :
     ∀ d' ∈ (step st op).1.dts, (∃ d ∈ st.dts, R d d') ∨
       (∃ p, op = .add p op.now ∧ R (newDt st p op.now) d') := by
   cases op with
@@ -328,8 +338,23 @@ theorem step_pred (st : St) (op : Op) (sr : StepRel op.now tOK C R) (ha : AllC C
   | result s te now => intro d' hd'; exact Or.inl ((both_result sr.toAddRel.toTrigRel st s te hop ha).2 d' hd')
   | pump now => intro d' hd'; exact Or.inl ((both_pump sr st ha).2 d' hd')
   | remove id u now => intro d' hd'; exact Or.inl ((both_remove sr st id u ha).2 d' hd')
+  | setPaused b now => intro d' hd'; exact Or.inl ((both_setq st b (hq b now rfl) ha).2 d' hd')
 
 end
+
+/-- Changing the pause mirror changes nothing else (and nothing at all on a removed downtime). -/
+theorem setQuiet_eq (b : Bool) (d : Dt) :
+    (setQuiet b d).id = d.id ∧ (setQuiet b d).removed = d.removed ∧ (setQuiet b d).trigger = d.trigger ∧
+    (setQuiet b d).fixed = d.fixed ∧ (setQuiet b d).start = d.start ∧ (setQuiet b d).fin = d.fin ∧
+    (setQuiet b d).duration = d.duration ∧ (setQuiet b d).entry = d.entry ∧ (setQuiet b d).triggers = d.triggers ∧
+    (setQuiet b d).owner = d.owner ∧ (setQuiet b d).trigBy = d.trigBy ∧ (setQuiet b d).starts = d.starts ∧
+    (setQuiet b d).ends = d.ends ∧ (setQuiet b d).trigEv = d.trigEv ∧ (setQuiet b d).remEv = d.remEv ∧
+    (setQuiet b d).cleanup = d.cleanup ∧ (d.removed = true → setQuiet b d = d) := by
+  unfold setQuiet
+  split
+  · exact ⟨rfl, rfl, rfl, rfl, rfl, rfl, rfl, rfl, rfl, rfl, rfl, rfl, rfl, rfl, rfl, rfl, fun _ => rfl⟩
+  · rename_i h
+    exact ⟨rfl, rfl, rfl, rfl, rfl, rfl, rfl, rfl, rfl, rfl, rfl, rfl, rfl, rfl, rfl, rfl, fun h' => absurd h' h⟩
 
 /-- For relations that need neither a restriction of the trigger times nor a context. -/
 theorem opT_trivial (st : St) (op : Op) : OpT st (fun _ => True) (fun _ => True) op := by
